@@ -24,6 +24,7 @@ func c06Exec(cs progCase) (ds []disc, labels map[string]bool) {
 	st := backends.Must(cs.Backend, cs.Opts)
 	defer st.Close()
 	r := prog.NewRunner(st)
+	r.NoTick = cs.NoTick
 	if !st.Kind.IsSingle() {
 		if d := r.Step(prog.Op{K: "mkbucket", B: "bk0"}); len(d) > 0 {
 			return d, labels
@@ -316,16 +317,23 @@ func c06Run(t *testing.T, c *evid.Collector) {
 					scen = append(scen, many)
 				}
 			}
-			for _, ops := range scen {
-				cs := progCase{Backend: k, Ops: ops}
-				ds, labels := c06Exec(cs)
-				record(cs, ds, labels, "fixed")
+			for si, ops := range scen {
+				for _, noTick := range []bool{false, true} {
+					if noTick && len(ops) > 300 && si%2 == 1 {
+						continue
+					}
+					cs := progCase{Backend: k, Ops: ops, NoTick: noTick}
+					ds, labels := c06Exec(cs)
+					record(cs, ds, labels, "fixed")
+				}
 			}
 		}
 	}
 	rapidRun(t, "random", evid.Scale(1500, 30000), func(rt *rapid.T) {
 		k := rapid.SampledFrom(kinds).Draw(rt, "backend")
-		cs := progCase{Backend: k, Ops: c06GenProgram(rt, evid.Scale(65536, 1<<20))}
+		// every third program runs with the server's clock standing still (a fixed or coarse time source:
+		// all parts and re-uploads carry the same time stamp)
+		cs := progCase{Backend: k, Ops: c06GenProgram(rt, evid.Scale(65536, 1<<20)), NoTick: rapid.IntRange(0, 2).Draw(rt, "notick") == 0}
 		ds, labels := c06Exec(cs)
 		if record(cs, ds, labels, "random") {
 			rt.Fatalf("C06 violated: %v", ds)
